@@ -3,6 +3,7 @@ package world
 import (
 	"fmt"
 	"strings"
+	"unicode"
 )
 
 // Span is a half-open byte interval of the rendered text.
@@ -243,6 +244,9 @@ func isIdent(s string) bool {
 	for i, c := range s {
 		if c == '_' || c >= 'a' && c <= 'z' || c >= 'A' && c <= 'Z' || (i > 0 && (c >= '0' && c <= '9' || c == '-')) {
 			continue
+		}
+		if c >= 0x80 && unicode.IsLetter(c) {
+			continue // HCL identifiers are Unicode identifiers (größe)
 		}
 		return false
 	}
